@@ -532,6 +532,7 @@ func main() {
 	hostWildReqs := []string{"a.com.evil.org/x", "a.com.evil.org", "a.com/x", "a.com/x/y", "a.com", "a/x", "a", "a.b/x", "a.b"}
 	intern(hostWild...)
 	intern(hostWildReqs...)
+	internEmbedded()
 	header := "From Verif Require Import C13.Model.\nImport ListNotations.\nOpen Scope Z_scope.\n" +
 		"Definition nomatch : lookup_obs := (false, false, [], []).\n" +
 		"Definition nosel (m : list Z) : sel_obs := (m, [], [], false).\n" +
@@ -547,6 +548,7 @@ func main() {
 	o.DeclareSuite("large", headerLarge, "case", "run_case")
 	o.DeclareSuite("kinds", header, "case", "run_case")
 	o.DeclareSuite("random", header, "case", "run_case")
+	o.DeclareSuite("embedded", header, "case", "run_case")
 	if o.Thorough() {
 		for i := 0; i < 4; i++ {
 			o.DeclareSuite(fmt.Sprintf("paths3_%d", i), header, "case", "run_case")
@@ -556,12 +558,15 @@ func main() {
 	}
 	o.Rule("paths: every multiset of <= 2 (thorough: 3) declarations (pattern h/<= 2 segments over {a,b,{p},*}, " +
 		"thorough also <= 3 segments for <= 2 declarations) x {GET,POST}, each in every order, against every request URL " +
-		"h/<= 3 segments over {a,b,c} x {GET,POST}; kinds: every multiset of <= 2 GET declarations over every host-label/path-segment split of " +
+		"h/<= 3 segments over {a,b,c} x {GET,POST}, plus [GET w, GET p, POST w] for a wildcard URL w and the parameter pattern p at its position in all 6 orders; kinds: every multiset of <= 2 GET declarations over every host-label/path-segment split of " +
 		"<= 2 labels, and over 5 host/path wildcard patterns of a two-label host against requests to that host, to a host extending it and to its first label; also every pair over 7 patterns with a wildcard in the middle; random: 1..5 declarations from a pool of valid patterns (1 in 6 malformed / unusually spelled), shared parameter names, " +
 		"several remedies per declaration, equal remedy types, disabled plugins, globals, in every order (<= 4) or 12 " +
 		"sampled orders; large: 49, 50, 51, 52, 120 (thorough: also random 40..64, 95..129) literal siblings below one parent (below a path segment, " +
 		"directly below the host, with a subtree each, host labels below the root, host labels below a label), mixed methods, alone or next to a " +
-		"parameter and / or wildcard sibling, in declaration order, reversed and shuffled, requests for the first, 8th, 49th..52nd, last and undeclared siblings; distinct = distinct (declarations in order, requests, observations); non-trivial = at " +
+		"parameter and / or wildcard sibling, in declaration order, reversed and shuffled, requests for the first, 8th, 49th..52nd, last and undeclared siblings; embedded: request URLs that embed an absolute URL or a \"://\" after the host " +
+		"(archive.org/web/http://bank.com/admin, h.com/a/x://y/z, \"://\" at the start of a segment, right below the host, twice, one slash only) against every multiset of <= 2 " +
+		"declarations (x {GET,POST}) for the outer host (wildcard / parameter / exact) and for the embedded host / path (exact / parameter / wildcard / host wildcard), in every order, triples in all 6 orders; " +
+		"declared URLs with a leading scheme / an embedded or trailing \"://\" next to plain ones; random also asks for <declared outer URL>/<scheme>://<declared inner URL>; distinct = distinct (declarations in order, requests, observations); non-trivial = at " +
 		"least one endpoint-scoped remedy was selected for some request")
 	var k Case
 	if _, ok := o.ReplayCase(&k); ok {
@@ -590,6 +595,14 @@ func main() {
 
 	// non-trailing wildcards next to the patterns they would shadow
 	multisets(o, "paths", quirk, methods, 2, reqPaths, false)
+
+	// a wildcard URL declared for two methods next to a parameter pattern at the
+	// position of the wildcard (the second wildcard entry must join the first
+	// one's node whatever else matches the spelling "*"): all 6 orders
+	for _, w := range [][2]string{{"h/*", "h/{p}"}, {"h/a/*", "h/a/{p}"}, {"h/{p}/*", "h/{p}/{q}"}} {
+		ds := []Decl{stdDecl(1, "GET", w[0], 1), stdDecl(2, "GET", w[1], 2), stdDecl(3, "POST", w[0], 3)}
+		runGroup(o, "paths", ds, nil, nil, reqPaths)
+	}
 
 	// kinds: host labels vs path segments
 	multisets(o, "kinds", kindPatterns(segs, 2, true), []string{"GET"}, 2, reqsOf(reqKindURLs, []string{"GET"}), false)
@@ -645,6 +658,13 @@ func main() {
 				reqs = append(reqs, Req{Method: m, URL: u})
 			}
 		}
+		// requests to one declared endpoint whose path embeds "<scheme>://" + another declared URL
+		for j := 0; j < 3; j++ {
+			u := embedRequest(r, ds[r.Intn(n)].URL, ds[r.Intn(n)].URL)
+			for _, m := range mpool[:2] {
+				reqs = append(reqs, Req{Method: m, URL: u})
+			}
+		}
 		su := "random"
 		if o.Thorough() {
 			su = fmt.Sprintf("random_%d", i%4)
@@ -654,5 +674,8 @@ func main() {
 
 	// big configurations: many siblings below one parent (large.go)
 	largeSuite(o)
+
+	// request URLs / declared URLs that embed an absolute URL or a "://" (embedded.go)
+	embeddedSuite(o)
 	o.Finish()
 }
